@@ -480,6 +480,19 @@ func runC05(e *sim.Env) {
 			if err == nil {
 				e.Probe("stale_basis_set_accepted")
 			}
+		} else if err != nil && useV2 && func() bool {
+			for i := n2; i < len(tb.V2Txns); i++ {
+				if mixedVersionAncestry(s.cm, tb.V2Txns[i]) {
+					return true
+				}
+			}
+			return false
+		}() {
+			// a v2 transaction on top of a pooled v1 transaction (directly, or
+			// through pooled v2 transactions whose v1 parent a reorg put back into
+			// the pool) is fine inside a block but cannot be handed to the pool,
+			// which takes v1 and v2 sets separately: counted, not judged
+			e.Probe("set_on_mixed_version_ancestry")
 		} else if err != nil {
 			e.Violationf("C05.valid-accepted", "fresh-set-rejected", "a set that is valid on top of the tip and the reported pool was rejected: %v (kinds %v)", err, tb.Kinds)
 		}
